@@ -41,7 +41,7 @@ def build(tier):
     for a, b in pairs:
         for sizes in ([[2, 1]] if quick else [[2, 1], [1], [1, 2, 1]]):
             qs.append(q("convert_%s_%s_%s" % (a, b, "-".join(map(str, sizes))),
-                        ["MODE_CONVERT", "ENC_A=" + ENC[a], "ENC_B=" + ENC[b], "NAL_SIZES=" + ",".join(map(str, sizes))], 14,
+                        ["MODE_CONVERT", "ENC_A=" + ENC[a], "ENC_B=" + ENC[b], "NAL_SIZES=" + ",".join(map(str, sizes))], 6 + sum(sizes) + 4 * len(sizes),
                         sample={"frame": "%d NAL units of %s symbolic octets" % (len(sizes), sizes), "A": a, "B": b, "check": "A->B then B->A"}
                         if (a, b) == ("annexb", "len4") else None))
     for nb, seg, lz in ([(3, 1, 4)] if quick else [(3, 1, 4), (3, 2, 4), (4, 2, 6)]):
